@@ -143,6 +143,13 @@ example : (overlapMemoRun oSchema Fixes.all (revRenameTr.doc (oDocFrag "a"))).1 
     (parentsAgree_frag "a") (by unfold NamesNonEmpty; decide) (by unfold NamesNonEmpty; decide)
     (by rw [← wfIdsB_iff]; decide)
 
+/-- all 26 rules at once on the same instance (unique fragment names, non-empty before and after the renaming) -/
+example : FullStatement_tr_invariance_all26 revRenameTr oSchema Fixes.all (oDocFrag "a") :=
+  tr_invariance_all26 revRenameTr revRenameTr_inj oSchema Fixes.all headVars_all (oDocFrag "a")
+    (by unfold Spec.uniqueFragmentNames; decide) (by unfold NamesNonEmpty; decide) (by unfold NamesNonEmpty; decide)
+    ((rule_unique_argument_names_iff oSchema Fixes.all _).mp (by unfold Silent; decide +kernel))
+    (parentsAgree_frag "a") (by rw [← wfIdsB_iff]; decide)
+
 /-- the transformed document really is another one (the spreads are swapped and renamed) -/
 example : (revRenameTr.doc (oDocFrag "a")).defs.head? = some (opV [] 1 [sp "B_", sp "A_"]) := by
   simp [revRenameTr, Tr.doc, oDocFrag, Tr.defn, Tr.selList, Tr.sel, opV, sp, fragQ]
